@@ -123,5 +123,18 @@ Proof.
   - destruct running; [|discriminate]. intros H. inversion H; subst. repeat split; intros; try reflexivity; lia.
 Qed.
 
+(* the same for either state of the face, against the specification's decision: what the closure returns
+   is "sent", and it is True exactly when the Data went out; it raises (NetworkError) only when the face is
+   down inside the lifetime, i.e. only when nothing was and nothing could be transmitted *)
+Theorem top_reply_any_face d t running :
+  match reply_closure d t running with
+  | Ok (sent, r) => sent = s_reply_out d t running /\ r = (if sent then RTrue else RFalse)
+  | Err e => e = E_NETWORK /\ s_reply_out d t running = false /\ running = false /\ t <= d
+  end.
+Proof.
+  unfold reply_closure, s_reply_out, s_reply_sent.
+  destruct (d <? t) eqn:E, (t <=? d) eqn:F, running; cbn; repeat split; try reflexivity; lia.
+Qed.
+
 Theorem top_no_garbage fe ops : t_pruned (s_fib (exec fe st0 ops)) = true.
 Proof. apply exec_pruned. reflexivity. Qed.
